@@ -6,7 +6,7 @@
       gives the classical resultant of (q, p))
    3. the swap law, the common-factor criterion and the specialisation statements. *)
 From Coq Require Import ZArith List.
-From LP Require Import UPoly MPoly Sylvester SylvesterEval.
+From LP Require Import UPoly MPoly Scalar ScalarProofs Sylvester SylvesterEval.
 Set Warnings "-notation-overridden,-ambiguous-paths".
 From mathcomp Require Import all_ssreflect all_fingroup all_algebra.
 From mathcomp Require Import ssrZ zify.
@@ -664,4 +664,120 @@ Proof.
 move=> Hp.
 exact: (@resultant_ref_lcp0 _ Z 0 1 Z.add Z.opp Z.mul z_is_zero id erefl erefl
           (fun _ _ => erefl) (fun _ => erefl) (fun _ _ => erefl) z_is_zeroP p 0 q Hp erefl).
+Qed.
+
+(* ---------------------------------------------------------------- other coefficient rings: ring morphisms out of Z
+   (reduction modulo a prime p, Z -> Z_p, is one).  Every reference determinant commutes with the morphism; hence the
+   resultant / psc / subresultants over Z_p of the reduced operands are the reductions of the integer ones. *)
+Section Morph.
+Variables (R : comRingType) (f : {rmorphism Z -> R}).
+
+Local Notation nz := (fun _ : R => false).
+Local Notation detR := (sylv_det R 0 1 +%R -%R *%R nz).
+
+Lemma nz_sound (a : R) : nz a = true -> id a = 0.
+Proof. by []. Qed.
+
+Lemma f_is0 (a : Z) : z_is_zero a = true -> f a = 0.
+Proof. by move/z_is_zeroP => ->; rewrite rmorph0. Qed.
+
+Theorem sylv_det_Z_morph (k j : nat) (p q : seq Z) :
+  f (sylv_det Z 0 1 Z.add Z.opp Z.mul z_is_zero k j p q) = detR k j (map f p) (map f q).
+Proof.
+rewrite /sylv_det !List_length_size !size_map.
+rewrite (@mdet_det R Z 0 1 Z.add Z.opp Z.mul z_is_zero f (rmorph0 f) (rmorph1 f) (rmorphD f) (rmorphN f) (rmorphM f) f_is0).
+rewrite (@mdet_det R R 0 1 +%R -%R *%R nz id erefl erefl (fun _ _ => erefl) (fun _ => erefl) (fun _ _ => erefl) nz_sound).
+rewrite -(map_sylv_mat k j p q (rmorph0 f)); congr (\det _).
+apply/matrixP => i c; rewrite !mxE /ent.
+by rewrite (@nth_map_default _ _ (map f) [::] [::]) // (@nth_map_default _ _ f 0 0) ?rmorph0.
+Qed.
+
+(* operands that are first reduced by any map g that f does not see (f (g c) = f c: e.g. g = reduction into the
+   symmetric range of Z_p and f : Z -> Z_p) give the same image *)
+Theorem sylv_det_Z_reduce_first (g : Z -> Z) (k j : nat) (p q : seq Z) :
+  (forall c, f (g c) = f c) ->
+  f (sylv_det Z 0 1 Z.add Z.opp Z.mul z_is_zero k j (map g p) (map g q)) =
+  f (sylv_det Z 0 1 Z.add Z.opp Z.mul z_is_zero k j p q).
+Proof.
+move=> Hg; rewrite !sylv_det_Z_morph -!map_comp.
+by congr (detR k j _ _); apply: eq_map => c /=.
+Qed.
+
+Theorem sylv_det_mp_morph (rho : var -> Z) (k j : nat) (p q : seq mpoly) :
+  f (mp_eval rho (sylv_det mpoly [::] mp_one mp_add mp_neg mp_mul mp_is_zero k j p q)) =
+  detR k j (map (f \o mp_eval rho) p) (map (f \o mp_eval rho) q).
+Proof. by rewrite sylv_det_spec sylv_det_Z_morph /spec_coeffs -!map_comp. Qed.
+
+(* with surviving leading coefficients the image is (up to the convention sign) MathComp's resultant over R *)
+Theorem resultant_Z_morph (p q : seq Z) :
+  last 1 (map f p) != 0 -> last 1 (map f q) != 0 ->
+  f (resultant_Z p q) = (-1) ^+ ((size p).-1 * (size q).-1) * resultant (Poly (map f p)) (Poly (map f q)).
+Proof.
+exact: (@resultant_ref_mathcomp R Z 0 1 Z.add Z.opp Z.mul z_is_zero f (rmorph0 f) (rmorph1 f) (rmorphD f) (rmorphN f)
+          (rmorphM f) f_is0 p q).
+Qed.
+
+End Morph.
+
+(* the canonical morphism Z -> Z_p does not see the reduction into the symmetric range *)
+Definition to_Fp (p : nat) : Z -> 'F_p := intr \o int_of_Z.
+
+Definition Fp_morph (p : nat) : {rmorphism Z -> 'F_p} := [rmorphism of to_Fp p].
+
+Lemma to_Fp_modulus (p : nat) : prime p -> to_Fp p (Z.of_nat p) = 0.
+Proof.
+move=> Hp; rewrite /to_Fp /=.
+have -> : int_of_Z (Z.of_nat p) = p%:Z by lia.
+by rewrite -[p%:Z%:~R]/(p%:R) (charf0 (char_Fp Hp)).
+Qed.
+
+Lemma to_Fp_ring_norm (p : nat) (c : Z) : prime p ->
+  to_Fp p (ring_norm (Some (Z.of_nat p)) c) = to_Fp p c.
+Proof.
+move=> Hp; have Hpos : Z.lt 0 (Z.of_nat p) by have := prime_gt0 Hp; lia.
+have H := ring_norm_cong (Z.of_nat p) c Hpos.
+set r := ring_norm _ c in H *.
+pose k := Z.sub (Z.div r (Z.of_nat p)) (Z.div c (Z.of_nat p)).
+have -> : r = c + Z.of_nat p * k.
+  have H1 := Z.div_mod r (Z.of_nat p); have H2 := Z.div_mod c (Z.of_nat p).
+  rewrite /k; move: (Z.div r _) (Z.div c _) (Z.modulo r _) (Z.modulo c _) H H1 H2 => a b x y -> H1 H2.
+  have Hne : Z.of_nat p <> Z0 by lia.
+  rewrite [r]H1 // [in RHS](H2 Hne); lia.
+have E : to_Fp p =1 Fp_morph p by [].
+by rewrite !E rmorphD rmorphM -!E to_Fp_modulus // mul0r addr0.
+Qed.
+
+(* coefficientwise reduction of a multivariate polynomial is invisible to f o eval when f does not see g *)
+Lemma morph_eval_map_coeff (R : comRingType) (f : {rmorphism Z -> R}) (g : Z -> Z) (rho : var -> Z) (x : mpoly) :
+  (forall c, f (g c) = f c) -> f (mp_eval rho (mp_map_coeff g x)) = f (mp_eval rho x).
+Proof.
+move=> Hg; rewrite /mp_map_coeff sy_eval_of_terms.
+elim: x => [|[m c] x IH] //=.
+by rewrite -/(mp_eval rho _) -/(mp_eval rho x) !rmorphD !rmorphM IH Hg.
+Qed.
+
+(* C04 over Z_p: for a prime p, reducing the operands into the symmetric range of Z_p first (what a Z_p context does
+   when the polynomials are built) and then taking any reference determinant over Z gives, in Z_p, the determinant
+   of the Sylvester matrix over Z_p - the same image as the integer determinant of the unreduced operands *)
+Theorem sylv_det_Z_mod_p (p : nat) (k j : nat) (P Q : seq Z) :
+  prime p ->
+  let red := ring_norm (Some (Z.of_nat p)) in
+  to_Fp p (sylv_det Z 0 1 Z.add Z.opp Z.mul z_is_zero k j (map red P) (map red Q)) =
+  sylv_det 'F_p 0 1 +%R -%R *%R (fun _ => false) k j (map (to_Fp p) P) (map (to_Fp p) Q).
+Proof.
+move=> Hp red; have E : to_Fp p =1 Fp_morph p by [].
+rewrite E (@sylv_det_Z_reduce_first _ (Fp_morph p) red k j P Q (fun c => to_Fp_ring_norm c Hp)).
+exact: (sylv_det_Z_morph (Fp_morph p)).
+Qed.
+
+Theorem sylv_det_mp_mod_p (p : nat) (rho : var -> Z) (k j : nat) (P Q : seq mpoly) :
+  prime p ->
+  let red := mp_map_coeff (ring_norm (Some (Z.of_nat p))) in
+  to_Fp p (mp_eval rho (sylv_det mpoly [::] mp_one mp_add mp_neg mp_mul mp_is_zero k j (map red P) (map red Q))) =
+  to_Fp p (mp_eval rho (sylv_det mpoly [::] mp_one mp_add mp_neg mp_mul mp_is_zero k j P Q)).
+Proof.
+move=> Hp red; have E : to_Fp p =1 Fp_morph p by [].
+rewrite !E !(sylv_det_mp_morph (Fp_morph p)) -!map_comp.
+by congr (sylv_det _ _ _ _ _ _ _ k j _ _); apply: eq_map => x /=;
+   apply: (morph_eval_map_coeff (f:=Fp_morph p)) => c; apply: to_Fp_ring_norm.
 Qed.
